@@ -54,14 +54,26 @@ WellFormed(w, q, kind) ==
 SameGeom(d, q1, kind1, q2, kind2) == kind1 = kind2 /\ Len(q1) = Len(q2) /\ Form(d, q1, kind1) = Form(d, q2, kind2)
 
 \* group action and reversal
-ActSeq(w, g, q) == [i \in 1..Len(q) |-> ActPos(w, g[1], g[2], q[i][1], q[i][2])]
+\* World!ActPos is the definition of the action on a site.  It is affine in the lattice vector:
+\*   R (D L + u_a) + t = D (R L) + (R u_a + t),   so   g.<<a, L>> = <<a', R L + S>>  with  <<a', S>> = g.<<a, 0>>.
+\* A group is therefore carried as a set of records [R, img] with img[a] = ActPos(.., a, 0), computed once.
+GroupTable(w, G) == {[R |-> g[1], img |-> [a \in AtomSet(w) |-> ActPos(w, g[1], g[2], a, VZero(w.dim))]] : g \in G}
+\* R L + S written out for dim 2 / 3 (same value as VAdd(MV(R, L), S); explicit arithmetic is much faster in TLC)
+AffineImage(R, L, S) ==
+  IF Len(L) = 2
+  THEN <<R[1][1] * L[1] + R[1][2] * L[2] + S[1], R[2][1] * L[1] + R[2][2] * L[2] + S[2]>>
+  ELSE <<R[1][1] * L[1] + R[1][2] * L[2] + R[1][3] * L[3] + S[1],
+         R[2][1] * L[1] + R[2][2] * L[2] + R[2][3] * L[3] + S[2],
+         R[3][1] * L[1] + R[3][2] * L[2] + R[3][3] * L[3] + S[3]>>
+ActT(gt, s) == LET im == gt.img[s[1]] IN <<im[1], AffineImage(gt.R, s[2], im[2])>>
+ActSeq(gt, q) == [i \in 1..Len(q) |-> ActT(gt, q[i])]
 \* reversal of a transition: the ends are exchanged; for "vts" an occupied final site becomes an occupied initial site
 Reversal(q, kind) ==
   [i \in 1..Len(q) |-> IF i = 1 THEN q[2] ELSE IF i = 2 THEN q[1]
                        ELSE IF kind = "vts" /\ q[i] = q[2] THEN q[1] ELSE q[i]]
-Orbit(w, G, q, kind) == {Form(w.dim, ActSeq(w, g, q), kind) : g \in G}
-OrbitRev(w, G, q, kind) ==
-  IF NSpecial(kind) = 2 THEN Orbit(w, G, q, kind) \cup Orbit(w, G, Reversal(q, kind), kind) ELSE Orbit(w, G, q, kind)
+Orbit(w, GT, q, kind) == {Form(w.dim, ActSeq(gt, q), kind) : gt \in GT}
+OrbitRev(w, GT, q, kind) ==
+  IF NSpecial(kind) = 2 THEN Orbit(w, GT, q, kind) \cup Orbit(w, GT, Reversal(q, kind), kind) ELSE Orbit(w, GT, q, kind)
 
 ---------------------------------------------------------------------------
 \* the complete set of plain clusters: at most K sites, none of an excluded species, pairwise within the cutoff
@@ -78,7 +90,8 @@ PairwiseWithin(w, cut2, T) == \A s \in T, t \in T : s = t \/ Within(w, cut2, s, 
 RawFrom(w, cut2, excl, B, K, a0) ==
   LET s0 == <<a0, VZero(w.dim)>>
       N == Nbrs(w, cut2, excl, B, s0)
-  IN UNION {{{s0} \cup T : T \in {U \in kSubset(n, N) : PairwiseWithin(w, cut2, U)}} : n \in 0..(K - 1)}
+      top == IF Cardinality(N) < K - 1 THEN Cardinality(N) ELSE K - 1
+  IN UNION {{{s0} \cup T : T \in {U \in kSubset(n, N) : PairwiseWithin(w, cut2, U)}} : n \in 0..top}
 AllRaw(w, cut2, excl, B, K) == UNION {RawFrom(w, cut2, excl, B, K, a0) : a0 \in Allowed(w, excl)}
 \* a set of sites as a raw plain cluster (any order)
 AsSeq(S) == SetToSeq(S)
